@@ -411,11 +411,12 @@ func (c *Ctx) ruleR5R6(r *shape.Result, fi *load.FuncInfo) {
 					avail := lin.AddC(pe.Cap, int64(pe.Stages))
 					if e.Order < l.Order {
 						avail = lin.AddC(avail, 1) // the join holds E's element while waiting for L
-					} else if pl := l.S.Paths[fid]; pl != nil && pe.Idx < pl.Idx {
+					}
+					if pl := l.S.Paths[fid]; pl != nil && pe.Idx < pl.Idx {
 						// the fork serves E's branch first but the join asks for L's first: E's branch has
 						// to take that element before the fork can turn to L's
 						need = lin.AddC(need, 1)
-						orderNote = " (one of them because the fork serves this branch before the one the join reads first)"
+						orderNote = " (one of them because the fork hands every element to this branch before it turns to the other)"
 					}
 					ok := true
 					for _, cx := range ctxs {
